@@ -36,6 +36,7 @@ def run_one(m):
         r = subprocess.run(["go", "build", "./..."], cwd=repo, env=ENV, capture_output=True, text=True)
         if r.returncode != 0:
             return m, "BUILD-FAILED", r.stderr
+        shutil.copy(os.path.join(ROOT, "..", "known_findings.txt"), d)
         env = dict(ENV, GOVC_VERIF_DIR=d)
         r = subprocess.run(["/verif/bin/govc", "check", m["prop"], "--repo", repo, "--no-evidence"], env=env, capture_output=True, text=True)
         out = r.stdout + r.stderr
